@@ -26,6 +26,7 @@ VKIND = 'trackers::visual_sort::metric::VisualSortMetricType'
 
 
 def run(ctx):
+    _wiring(ctx)
     ctx.rule('R12.1', 'gate polarity of the appearance path')
     ctx.rule('R12.2', 'use thresholds in metric(); collect thresholds in optimize()')
     n = M.rule_collect_gate(ctx, 'R12.2', 'R12.1')
@@ -278,3 +279,10 @@ def similarity(ctx, R):
             ctx.check(d_arg.has_call('euclidean') or d_arg.has_call('cosine'), R, vb, 'weight-of-the-computed-distance', '',
                       'distance_to_weight is not applied to the computed feature distance')
     return n
+
+
+def _wiring(ctx):
+    """name-agreement wiring of the configuration values this property depends on (rules/wiring.py)"""
+    import wiring
+    ctx.rule('R12.6', 'configuration plumbing: same-named fields / parameters / setters / call arguments are not crossed')
+    ctx.floor('R12.6', wiring.run(ctx, 'R12.6', {'visual_kind', 'visual_minimal_track_length', 'visual_minimal_area', 'visual_minimal_quality_use', 'visual_minimal_own_area_percentage_use', 'visual_min_votes', 'max_allowed_feature_distance', 'min_winner_feature_votes', 'max_distance', 'min_votes'}), 21)
